@@ -8,6 +8,7 @@ import (
 	"context"
 	"encoding/json"
 	"fmt"
+	"os"
 	"sort"
 	"strings"
 	"time"
@@ -268,9 +269,9 @@ func Run(o *core.Options) int {
 	for _, p := range baseScenarios(o.Thorough()) {
 		scs = append(scs, scenario(p))
 	}
-	b := e1.Budget{Bounds: []int{0, 1, 2}, Required: 1, Prune: true, PerScen: 45 * time.Second}
+	b := e1.Budget{Bounds: []int{0, 1, 2}, Required: 1, Prune: true, Elide: os.Getenv("VERIF_NO_ELIDE") == "", PerScen: 45 * time.Second}
 	if o.Thorough() {
-		b = e1.Budget{Bounds: []int{0, 1, 2, 3}, Required: 2, Prune: true, PerScen: 12 * time.Minute}
+		b = e1.Budget{Bounds: []int{0, 1, 2, 3}, Required: 2, Prune: true, Elide: true, PerScen: 12 * time.Minute}
 	}
 	if o.Replay != "" {
 		var v e1.Viol
